@@ -210,6 +210,38 @@ func oneRun(c *Ctx, seed int64) (bool, error) {
 		}
 		converge(8)
 	}
+	// application data across the pair: writes on either side, the datagrams delivered, dropped or duplicated at random,
+	// then everything queued is read (each side's half is judged by the core model and the C07 monitors; the whole by
+	// the data-carrying system model)
+	if r.Intn(3) != 0 {
+		c.Count("run:data_phase")
+		nw := 1 + r.Intn(5)
+		for k := 0; k < nw; k++ {
+			side := r.Intn(2)
+			p.Do(side, agenth.Op{Kind: "WR", Payload: agenth.Payload{ID: 10 + k, Len: []int{1, 40, 500, 1200}[r.Intn(4)]}})
+			if r.Intn(2) == 0 {
+				for p.DataInFlight() > 0 && r.Intn(3) != 0 {
+					i := r.Intn(p.DataInFlight())
+					switch r.Intn(6) {
+					case 0:
+						p.DropData(i)
+					case 1:
+						p.DeliverData(i, true)
+					default:
+						p.DeliverData(i, false)
+					}
+				}
+			}
+		}
+		for p.DataInFlight() > 0 {
+			p.DeliverData(0, false)
+		}
+		for side := 0; side < 2; side++ {
+			for k := 0; k < 2*nw+2; k++ {
+				p.Do(side, agenth.Op{Kind: "RD"})
+			}
+		}
+	}
 	restarted := false
 	if r.Intn(5) == 0 {
 		restarted = true
@@ -241,7 +273,7 @@ func oneRun(c *Ctx, seed int64) (bool, error) {
 		so := append([]string{}, p.SysFinal[0]...)
 		so = append(so, "|")
 		so = append(so, p.SysFinal[1]...)
-		so = append(so, "|", fmt.Sprint(p.SysNet))
+		so = append(so, "|", fmt.Sprint(p.SysNet), fmt.Sprint(p.SysDNet))
 		c.Emit("sys", sc, so, true)
 	}
 	sum := []string{"PS"}
